@@ -123,6 +123,13 @@ class Translator:
             self.isns[i] = nsflags + [k == 'NamespaceDecl']
             self.parent[i] = parent
         sc, nf = scope, nsflags
+        pid = n.get('parentDeclContextId')
+        if pid and k in ('CXXRecordDecl', 'EnumDecl') and pid in self.qual and self.byid.get(pid, {}).get('kind') in ('CXXRecordDecl', 'ClassTemplateSpecializationDecl'):
+            # out-of-line definition of a nested class (class Apbp::Impl { ... }): qualify by the semantic parent
+            scope = list(self.qual[pid]); nsflags = list(self.isns[pid])
+            self.qual[i] = scope + [n.get('name', '')]
+            self.isns[i] = nsflags + [False]
+            sc, nf = scope, nsflags
         if k in self.SCOPES and n.get('name'):
             nm = n['name']
             if k == 'ClassTemplateSpecializationDecl':
@@ -240,6 +247,9 @@ class Translator:
         if m:
             raise Unsupported('array type in expression position: ' + q)
         if q in self.PRIM: return const + self.PRIM[q]
+        m = re.match(r'std::array<(.*), (\d+)>::(value_type|reference|const_reference)$', q)
+        if m:
+            return const + self.ctype_s(m.group(1))
         m = re.match(r'std::atomic<(.*)>$', q)
         if m:
             self.rules['std::atomic<T> -> T'] += 1
